@@ -274,6 +274,8 @@ func c04(r *Report, s *Sem) {
 
 	// ---- R6
 	c04Dispatch(r, s, R6)
+	R7 := r.Rule("R7", "a response command is delivered exactly once also when its requester gave up: the pending entry is removed on every exit of the request path, so a late response misses the table and goes to the response stream", 1)
+	checkPendingCleanup(r, s, R7)
 }
 
 func isDeferredClosure(parent, anon *ssa.Function) bool {
